@@ -101,6 +101,19 @@ DoChangeCoordinator(coord) ==
   /\ obs' = Obs("ChangeCoordinator", "", "", <<>>)
   /\ UNCHANGED <<pend, parts>>
 
+\* Leader-side admission (metadata.go checkCreateConsumerGroupPreconditions /
+\* checkJoinConsumerGroupPreconditions): a request is proposed to Raft only if
+\* the group does not exist yet / exists, the consumer is not a member yet and
+\* EVERY named stream exists.  A refused request changes nothing and consumes
+\* no index.  (Part of what makes C12 hold: a member subscribed to a stream
+\* that is created later would never get its partitions.)
+AllExist(S) == \A s \in S : Exists(s)
+Refused(a) == /\ obs' = Obs(a, "", "precondition", <<>>) /\ UNCHANGED <<gs, pend, parts, idx>>
+DoProposeCreateGroup(c, S, coord) ==
+  IF ~GroupExists /\ AllExist(S) THEN DoCreateGroup(c, S, coord) ELSE Refused("CreateGroup")
+DoProposeJoin(c, S) ==
+  IF GroupExists /\ (\A v \in Servers : c \notin Members(gs[v])) /\ AllExist(S) THEN DoJoin(c, S) ELSE Refused("Join")
+
 -----------------------------------------------------------------------------
 (* Local steps of one server *)
 
